@@ -32,9 +32,9 @@ use std::io::Write;
 type PJ = ParsedJar<ClassRepr, Vec<u8>>;
 type Pair = ((String, String, String), (String, String, String));
 
-const SIG_C06_NAMED: &str = "C15 named name of the bridge through inheritance is lost: the super-type walk of the intermediary->named remapper stops at a class without mapping entry (C06 defect)";
-const SIG_C06_CAL: &str = "C15 intermediary name through inheritance is lost: the super-type walk of the official->intermediary remapper stops at a class without mapping entry (C06 defect)";
-const SIG_C06_BOTH: &str = "C15 names through inheritance are lost in both remappers: the super-type walk stops at a class without mapping entry (C06 defect)";
+const SIG_C06_NAMED: &str = "C15 named name of the bridge through inheritance is lost: result equals a super-type walk of the intermediary->named remapper that stops at a class without mapping entry (C06 defect pattern)";
+const SIG_C06_CAL: &str = "C15 intermediary name through inheritance is lost: result equals a super-type walk of the official->intermediary remapper that stops at a class without mapping entry (C06 defect pattern)";
+const SIG_C06_BOTH: &str = "C15 names through inheritance are lost in both remappers: result equals super-type walks that stop at a class without mapping entry (C06 defect pattern)";
 
 fn parsed_jar(entries: &[(String, Vec<u8>)], rng: &mut Rng) -> PJ {
     let mut jar = PJ { entries: indexmap::IndexMap::new() };
@@ -192,6 +192,7 @@ fn judge(rep: &mut Report, sc: &Scenario, main_bytes: &[(String, Vec<u8>)], lib_
         rep.count(&format!("name.{nsrc}"));
         if e.named_hit.is_some_and(|h| h.1) { rep.count("name.walk_passes_class_without_entry"); }
         if e.cal_via_tableless { rep.count("calamus.walk_passes_class_without_entry"); }
+        if e.named_in_library { rep.count("name.from_entry_of_a_library_class"); }
         fp += &format!("|{ts}/{nsrc}/{}", e.named_hit.is_some_and(|h| h.1));
     }
     if changes > 0 { rep.count("scenarios.with_expected_change"); } else { rep.count("scenarios.expected_unchanged"); }
@@ -210,7 +211,7 @@ fn main() {
     let mut rep = Report::new();
 
     // ---- workload 1: generated scenarios
-    let n = ctx.tier.pick(6_000, 200_000);
+    let n = ctx.tier.pick(30_000, 1_500_000);
     run_cases(&ctx, &replay, &mut rep, "generated", n, |rng, rep, i| {
         let sc = gen::gen_scenario(rng, i);
         let bad = |s: String| -> ! { eprintln!("HARNESS-ERROR C15 (case {i}): {s}"); std::process::exit(3) };
@@ -226,7 +227,7 @@ fn main() {
     let mut groups: BTreeMap<String, Vec<(String, Vec<u8>)>> = BTreeMap::new();
     for (name, bytes) in corpus { let g = name.split('/').next().unwrap_or("").to_string(); groups.entry(g).or_default().push((name, bytes)); }
     let groups: Vec<(String, Vec<(String, Vec<u8>)>)> = groups.into_iter().collect();
-    let per = ctx.tier.pick(12u64, 200);
+    let per = ctx.tier.pick(40u64, 1500);
     run_cases(&ctx, &replay, &mut rep, "corpus", groups.len() as u64 * per, |rng, rep, i| {
         let (g, files) = &groups[(i % groups.len() as u64) as usize];
         let mut classes = vec![];
@@ -247,7 +248,7 @@ fn main() {
     if replay.is_none() {
         for k in gen::KINDS { meta.oblige(format!("motif {k}: generated >= 20 times"), rep.get(&format!("kind.{k}")) >= 20); }
         for k in ["target.inserted", "target.overwritten", "target.overwritten_with_children", "target.already_same", "target.had_no_named_name", "target.class_lacks",
-            "name.unchanged_intermediary_name", "name.own_class_entry", "name.super_type_depth1", "name.super_type_depth2plus", "name.walk_passes_class_without_entry",
+            "name.unchanged_intermediary_name", "name.own_class_entry", "name.super_type_depth1", "name.super_type_depth2plus", "name.walk_passes_class_without_entry", "name.from_entry_of_a_library_class", "calamus.walk_passes_class_without_entry",
             "jar.zip", "jar.parsed", "jar.with_library", "open.detected", "scenarios.expected_unchanged"] {
             meta.oblige(format!("at least 10 cases with {k}"), rep.get(k) >= 10);
         }
